@@ -181,6 +181,35 @@ def nested_unknown(fl: List[int], blob: bytes) -> bool:
     return ok and msgs[0].dump() == wire and top.dump() == outer
 
 
+def twins(fl: List[int], blob: bytes) -> bool:
+    """
+    pre: len(fl) == 6 and all(0 <= f <= 127 for f in fl) and len(blob) == 6 * P["L"]
+    post: _
+    """
+    # same-code unknown siblings with free flags and data - byte-identical siblings arise as solver cases - at message level,
+    # inside a Failed-AVP and inside a nested one: every occurrence survives the decode and the re-encoding is identical
+    from bromelia.avps import FailedAvpAVP
+    L = P["L"]
+    d = [blob[i * L:(i + 1) * L] for i in range(6)]
+    rf = lambda i: ref_avp(7001, fl[i], None, d[i])
+    inner = G.ref_for(FailedAvpAVP, rf(2) + rf(3))
+    outer = G.ref_for(FailedAvpAVP, rf(0) + rf(1) + inner)
+    wire = _sym(ref_msg(1, 0, 280, 0, 9, 9, [outer, rf(4), rf(5)]))
+    msgs = _load(wire)
+    reached()
+    if msgs is None or len(msgs) != 1:
+        return False
+    m = msgs[0]
+    if REPLAY: note(top=len(m.avps), members=len(m.avps[0].avps) if m.avps else None, redump_equal=m.dump() == wire)
+    if len(m.avps) != 3 or type(m.avps[0]) is not FailedAvpAVP or len(m.avps[0].avps) != 3:
+        return False
+    g = m.avps[0]
+    ok = g.avps[0].data == d[0] and g.avps[1].data == d[1] and g.avps[0].get_flags() == fl[0] and g.avps[1].get_flags() == fl[1] if L else True
+    ok = ok and type(g.avps[2]) is FailedAvpAVP and len(g.avps[2].avps) == 2
+    ok = ok and m.avps[1].get_flags() == fl[4] and m.avps[2].get_flags() == fl[5]
+    return ok and m.dump() == wire and g.dump() == outer and m.header.get_length() == len(wire)
+
+
 def _select(tier):
     allc = G.classes()
     if tier != "quick":
@@ -228,10 +257,13 @@ def queries(tier, seed):
     for Ls in (([3, 1, 2],) if tier == "quick" else ([3, 1, 2], [0, 4, 1], [2, 2, 3], [1, 0, 0])):
         qs.append(Q(f"nested_unknown/{'_'.join(map(str, Ls))}", "nested_unknown", {"Ls": Ls}, cto=t, pto=t,
                     what=f"unknown members (lengths {Ls}) nested two levels inside Failed-AVP: flags/data symbolic"))
+    for L in ((1, 4) if tier == "quick" else (0, 1, 2, 3, 4, 5)):
+        qs.append(Q(f"twins/L{L}", "twins", {"L": L}, cto=t, pto=t,
+                    what=f"six same-code unknown AVPs ({L} data bytes each, flags/data symbolic: byte-identical siblings arise) at message level, in a Failed-AVP and in a nested one"))
     return qs
 
 
-BOUNDS = ["header: all values of all fields", "streams of 1..3 messages with <= 4 unknown AVPs each, every data length residue, flags (M,P,reserved) symbolic",
+BOUNDS = ["same-code siblings with free flags/data (byte-identical siblings included) at three levels", "header: all values of all fields", "streams of 1..3 messages with <= 4 unknown AVPs each, every data length residue, flags (M,P,reserved) symbolic",
           "dictionary classes with default flags: quick = all Grouped + custom-logic + one per (type, vendor-ness); thorough = all", "nesting depth 3"]
 OUTSIDE = ["non-zero padding bytes (not well-formed)", "streams of more than 3 messages", "unknown (vendor, code) pairs are concrete constants per position "
            "(the loader only hashes and compares them)", "known AVPs carrying non-default flag bits: open known finding (region excluded, witness replayed)"]
